@@ -1,4 +1,5 @@
 import Proofs.Lemmas.Monitor
+import Proofs.Lemmas.LockBridge
 import Zrnt.Conc.LockCheck
 import Zrnt.Conc.LockFactsBaseline
 import Zrnt.Gen.LockFacts
@@ -281,7 +282,7 @@ theorem exported_ok (r : Nat × Nat) (hr : r ∈ sharedRows all) (he : (getM (ge
     noHandout all (getT all r.1) r.2 = true := by
   have h := row_ok r hr
   simp only [methodOk, methodOkT, he, if_true, Bool.and_eq_true] at h
-  obtain ⟨⟨⟨⟨h1, h2⟩, h3⟩, h4⟩, h5⟩ := h
+  obtain ⟨⟨⟨⟨⟨h1, h2⟩, h3⟩, h4⟩, h5⟩, _⟩ := h
   exact ⟨h1, h2, h3, h4, h5⟩
 
 /-- no exported method of a shared component reaches, while holding the component's lock, a method that
@@ -305,6 +306,52 @@ theorem single_section (r : Nat × Nat) (hr : r ∈ sharedRows all) (he : (getM 
 /-- no exported method returns an alias of guarded memory that is written in place -/
 theorem no_unsynchronised_handout (r : Nat × Nat) (hr : r ∈ sharedRows all) (he : (getM (getT all r.1) r.2).exported = true) :
     noHandout all (getT all r.1) r.2 = true := (exported_ok r hr he).2.2.2.2
+
+/-- **Bridge.** Read as monitor code (`Zrnt.Conc.modelCode`: unguarded accesses first, then `acq`, the accesses
+made with the lock held, a second `acq` if the call re-enters, `rel`, further sections), every exported row of
+the regenerated table is `WellFormed` — i.e. satisfies the premises of the monitor theorems. -/
+theorem rows_wellFormed (r : Nat × Nat) (hr : r ∈ sharedRows all) (he : (getM (getT all r.1) r.2).exported = true) :
+    WellFormed (modelCode all (getT all r.1) r.2) :=
+  modelCode_wellFormed all (getT all r.1) r.2 he (row_ok r hr)
+
+/-- **The monitor theorems, instantiated with the regenerated table.** Take any shared type `ti` of the table
+and let every thread run the monitor code of some exported method of it (`pick i`; `none` = no call). Then in
+every reachable configuration there is no data race, some thread can step unless all calls have returned, and
+when they have, shared state and results are those of the sequential execution in lock-acquisition order. -/
+theorem table_system_safe (ti : Nat) (hti : ti < all.length) (hs : (getT all ti).role = .shared)
+    (pick : Nat → Option Nat)
+    (hpick : ∀ i mi, pick i = some mi → mi < (getT all ti).methods.length ∧ (getM (getT all ti) mi).exported = true)
+    (sys : Nat → Thread Unit Unit)
+    (hsys : ∀ i, sys i = match pick i with
+                        | some mi => ⟨modelCode all (getT all ti) mi, ()⟩
+                        | none => ⟨[], ()⟩)
+    (c : Config Unit Unit) (h : Reach (init () sys) c) :
+    ¬ Race c ∧ (¬ allDone c → ∃ c', Step c c') ∧
+    (allDone c → c.order.Nodup ∧ c.sh = (seqExec c.order ((), sys)).1 ∧
+        ∀ i, (c.ths i).loc = ((seqExec c.order ((), sys)).2 i).loc) := by
+  have wf : ∀ i, WellFormed (sys i).code := by
+    intro i
+    rw [hsys i]
+    cases hp : pick i with
+    | none => exact .inl rfl
+    | some mi =>
+      obtain ⟨hlt, he⟩ := hpick i mi hp
+      have hr : (ti, mi) ∈ sharedRows all := by
+        simp only [sharedRows, List.mem_flatMap, List.mem_range]
+        refine ⟨ti, hti, ?_⟩
+        simp only [hs, beq_self_eq_true, if_true, List.mem_map, List.mem_range]
+        exact ⟨mi, hlt, rfl⟩
+      exact rows_wellFormed (ti, mi) hr he
+  refine ⟨monitor_race_free () sys wf c h, monitor_progress () sys wf c h, ?_⟩
+  intro hd
+  obtain ⟨h1, _, h3, h4⟩ := monitor_linearizable () sys wf c h hd
+  exact ⟨h1, h3, h4⟩
+
+/-- non-vacuity of `table_system_safe`: a real instance (two threads calling `VoluntaryExitPool.AddVoluntaryExit`
+and `.All`), whose codes are non-empty critical sections -/
+example : ∃ ti, ti < all.length ∧ (getT all ti).role = .shared ∧ (getT all ti).name = "VoluntaryExitPool" ∧
+    (modelCode all (getT all ti) 0).length ≥ 3 ∧ (modelCode all (getT all ti) 1).length ≥ 3 := by
+  refine ⟨7, by decide, by decide, by decide, by decide, by decide⟩
 
 /-- non-vacuity: the table is not empty, contains the components the property names, and has exported rows -/
 example : (sharedRows all).length ≥ 40 := by decide
@@ -350,6 +397,31 @@ schedule `unguarded_access_races`. Replayed under the race detector (`CachedPubk
 Fixed by f2c08a6. -/
 theorem baseline_no_unsynchronised_handout_false :
     (getM (getT all 1) 0).name = "Pubkey" ∧ noHandout all (getT all 1) 0 = false := by decide
+
+/-- two threads running the monitor code of two rows of a table -/
+def rowSys (all : List TypeFacts) (ti m0 m1 : Nat) : Nat → Thread Unit Unit
+  | 0 => ⟨modelCode all (getT all ti) m0, ()⟩
+  | 1 => ⟨modelCode all (getT all ti) m1, ()⟩
+  | _ => ⟨[], ()⟩
+
+/-- the schedule derived from the baseline ROW itself: the monitor code of `UpdateJustified` (33 accesses under
+the lock, then the re-entrant acquire) run alone blocks after 34 steps, forever -/
+theorem baseline_updateJustified_model_deadlocks :
+    ∃ c, runSchedule (List.replicate 34 0) (init () (rowSys all 0 2 2)) = some c ∧
+      ∀ c', Reach c c' → c'.lock.writer = some 0 ∧ ¬ allDone c' := by
+  refine ⟨_, rfl, ?_⟩
+  intro c' h
+  have := self_deadlock (i := 0) (m := .w) (rest := [.rel]) rfl rfl c' h
+  refine ⟨this.1, fun hd => ?_⟩
+  have h0 := hd 0
+  rw [this.2] at h0
+  cases h0
+
+/-- the schedule derived from the baseline ROWS of `AttestationPool.Search` (thread 0) and `Prune` (thread 1):
+after Prune's first step, Search is about to read `datas` while Prune is about to write it -/
+theorem baseline_search_prune_model_race :
+    ∃ c, Reach (init () (rowSys all 3 1 2)) c ∧ Race c := by
+  refine ⟨_, runSchedule_reach [1] (init () (rowSys all 3 1 2)) _ rfl, 0, 1, _, _, by decide, rfl, rfl, rfl, .inr rfl⟩
 
 /-- `readers_pure` held on the baseline tree as well (no method writes under `RLock`) -/
 theorem baseline_readers_pure :
